@@ -36,6 +36,16 @@ type vfXModel struct {
 	Exec func(hist []int, last bool) vfXResult
 	// MaxDepth for the tier.
 	MaxDepth func(thorough bool) int
+	// FaultDepth > 0: for every transition whose history is no longer than FaultDepth(thorough) the last
+	// operation is re-executed once per store call it makes, with that call failing (Exec reads vfXFault).
+	FaultDepth func(thorough bool) int
+}
+
+// vfXFault is the fault plan of the execution being run (K = 0: none). Base is the result of the
+// fault-free run of the same history.
+var vfXFault struct {
+	K    int
+	Base *vfXResult
 }
 
 type vfXViolation struct {
@@ -53,6 +63,10 @@ type vfXResult struct {
 	Fatal      string            `json:"fatal,omitempty"`
 	Status     string            `json:"status,omitempty"`
 	Obs        string            `json:"obs,omitempty"` // canonical observation of the last step (soundness check)
+	NCalls     int               `json:"ncalls,omitempty"`   // store calls made by the last operation
+	PostDump   string            `json:"-"`                  // store dump after the last operation (fault oracle)
+	Code       int               `json:"-"`
+	FaultRuns  int64             `json:"fault_runs,omitempty"`
 }
 
 var vfXModels = map[string]*vfXModel{}
@@ -74,6 +88,27 @@ type vfXJobResult struct {
 
 // vfXRunOne executes one history in a fresh vsched execution.
 func vfXRunOne(m *vfXModel, hist []int) vfXResult {
+	vfXFault.K, vfXFault.Base = 0, nil
+	out := vfXRunPlain(m, hist)
+	if m.FaultDepth != nil && len(hist) > 0 && len(hist) <= m.FaultDepth(vfev.Thorough()) && out.Status == "ok" {
+		base := out
+		for k := 1; k <= base.NCalls; k++ {
+			vfXFault.K, vfXFault.Base = k, &base
+			fr := vfXRunPlain(m, hist)
+			out.FaultRuns++
+			for _, v := range fr.Violations {
+				out.Violations = append(out.Violations, v)
+			}
+			if fr.Fatal != "" && out.Fatal == "" {
+				out.Fatal = fr.Fatal
+			}
+		}
+		vfXFault.K, vfXFault.Base = 0, nil
+	}
+	return out
+}
+
+func vfXRunPlain(m *vfXModel, hist []int) vfXResult {
 	var out vfXResult
 	res := vsched.Run(vsched.Config{MaxSteps: 3000000}, func() {
 		out = m.Exec(hist, true)
@@ -364,6 +399,12 @@ func vfXSearch(t *testing.T, property, part, model string) {
 				}
 				for k, c := range s.Res.Counts {
 					r.Count(k, c)
+				}
+				if s.Res.FaultRuns > 0 {
+					r.Count("fault_runs", s.Res.FaultRuns)
+					r.Eval(s.Res.FaultRuns)
+					r.DistinctN(s.Res.FaultRuns)
+					r.Transitions += s.Res.FaultRuns
 				}
 				if s.Res.Outcome != "" {
 					r.Outcome(s.Res.Outcome)
